@@ -182,7 +182,7 @@ def text_mutant(repo: Repo, relpath: str, old: str, new: str, count: int = 1) ->
     formatting of the original file.  Only used by self-tests, never by a deciding rule."""
     if relpath.endswith(".py"):
         m = repo.module(relpath)
-        norm = ast.unparse(m.tree)
+        norm = ast.unparse(ast.parse(m.source))     # the raw (not canonicalised) tree: variant texts are written against it
     else:
         norm = repo.text(relpath)
     if old not in norm:
